@@ -23,7 +23,7 @@ from calmjs.parse.parsers import es5
 from calmjs.parse.parsers.es5 import parse
 from calmjs.parse.walkers import Walker
 
-SPEC = dict(gen=['children'], props=['CalmVerif.Props.C16'], drivers=['drv_walk'], audit='Audit/C16.lean')
+SPEC = dict(gen=['children', 'defs'], props=['CalmVerif.Props.C16', 'CalmVerif.Props.C16order'], drivers=['drv_walk'], audit='Audit/C16.lean')
 
 Node = asttypes.Node
 KF = 'KF-16a'
